@@ -264,6 +264,27 @@ def build(repo=None):
                 if s1.get(cls) is not cls0:
                     eng.oblige(s1, "modifies:annotation-class-untouched", z3.BoolVal(False))
                 name_v = s1.env.get("dtype")
+                if name_v is not None and o.kind == "return":
+                    # C03: the dtype name is extracted as documented per backend model
+                    ma = eng._memo_attr
+                    dt_o = ma.get((obj.t.get_id(), "dtype"))
+                    ty_o = ma.get((dt_o.t.get_id(), "type")) if dt_o is not None else None
+                    anp_o = ma.get((dt_o.t.get_id(), "as_numpy_dtype")) if dt_o is not None else None
+                    if dt_o is None or ty_o is None or anp_o is None:
+                        eng.oblige(s1, "C03:name-extraction:reads-dtype.type.__name__/as_numpy_dtype.__name__/str-or-repr-tail", z3.BoolVal(False))
+                    else:
+                        Ufn = lambda n_, *sorts: z3.Function(n_, *sorts)
+                        has_type = Ufn("py_hasattr_type", U, BOOL)(dt_o.t)
+                        has_nm = Ufn("py_hasattr___name__", U, BOOL)(ty_o.t)
+                        has_anp = Ufn("py_hasattr_as_numpy_dtype", U, BOOL)(dt_o.t)
+                        is_str = Ufn("py_isinstance_str", U, BOOL)(dt_o.t)
+                        as_str = Ufn("py_as_str", U, STR)
+                        nm_t = name_v.t if isinstance(name_v, Z) else as_str(name_v.t)
+                        A = z3.And(has_type, has_nm)
+                        specn = z3.If(A, z3.Or(nm_t == NameOf(ty_o.t), nm_t == Ufn("py_str", U, STR)(dt_o.t)),
+                                      z3.If(has_anp, nm_t == NameOf(anp_o.t),
+                                            z3.If(is_str, nm_t == as_str(dt_o.t), nm_t == RTail(Ufn("py_repr", U, STR)(dt_o.t)))))
+                        eng.oblige(s1, "C03:name-extraction:numpy/jax-type-name(or-str-for-structured),TF-as_numpy_dtype-name,else-the-string-or-the-repr-tail-after-the-LAST-dot", specn)
                 if o.kind == "return":
                     v = o.val
                     if not (isinstance(v, Z) and v.kind == "str"):
